@@ -37,6 +37,7 @@ class Contract:
         self.file = file
         self.qualname = qualname
         self.name = qualname.split(".")[-1]
+        self.source = kw.get("source", qualname)  # the function whose source is verified (several contracts may share one)
         self.params = kw.get("params", {})
         self.defaults = kw.get("defaults", {})
         self.free = kw.get("free", {})
